@@ -645,6 +645,9 @@ func (fr *Frame) siteMatches(sa *SiteAction, ins ssa.Instruction) bool {
 			return false
 		}
 		return sa.Pattern == "*" || fr.valueDescr(s.Chan) == sa.Pattern
+	case "select":
+		_, ok := ins.(*ssa.Select)
+		return ok && sa.Pattern == "*"
 	case "store":
 		s, ok := ins.(*ssa.Store)
 		if !ok {
@@ -842,6 +845,21 @@ func (fr *Frame) runSites(ins ssa.Instruction, when string, pc string, st *State
 				env.vars["result0"] = tv{t: li.val, ty: li.valT}
 				env.vars["result"] = tv{t: li.val, ty: li.valT}
 				env.vars["result1"] = tv{t: li.ok, ty: tBool}
+			}
+		case *ssa.Select:
+			// index: the case that fired (-1: default); valueK: what the K-th receive case (in source order) received
+			if rv, ok := fr.vals[x]; ok && len(rv) >= 2 {
+				env.vars["index"] = tv{t: rv[0], ty: tInt}
+				k, slot := 0, 2
+				for _, sst := range x.States {
+					if sst.Dir == types.RecvOnly {
+						if slot < len(rv) {
+							env.vars[fmt.Sprintf("value%d", k)] = tv{t: rv[slot], ty: sst.Chan.Type().Underlying().(*types.Chan).Elem()}
+						}
+						slot++
+					}
+					k++
+				}
 			}
 		case *ssa.Send:
 			env.vars["value"] = tv{t: fr.v1(x.X), ty: x.X.Type()}
